@@ -20,7 +20,7 @@ def run_one(d):
             return name, "PATCH-FAILED", r.stderr.strip()[:300]
         env = dict(os.environ, GOVC_REPO=scratch, GOVC_VERIF=os.path.join(tmp, "verif"), GOFLAGS="-mod=mod", GOPROXY="off")
         os.makedirs(env["GOVC_VERIF"], exist_ok=True)
-        for f in ("known_findings.json", "floors.json", "properties.jsonl"):
+        for f in ("known_findings.json", "floors.json", "properties.jsonl", "dead_returns.txt"):
             shutil.copy(os.path.join(HERE, f), env["GOVC_VERIF"])
         if os.path.isdir(os.path.join(HERE, "unproved")):
             shutil.copytree(os.path.join(HERE, "unproved"), os.path.join(env["GOVC_VERIF"], "unproved"))
